@@ -274,7 +274,9 @@ class CodeBuilder:
                 else:
                     return field.default_factory
         else:
-            return self.namespace.get(name, MISSING)
+            # like dataclasses: an inherited class attribute is the default
+            # of a field that is re-declared without a value
+            return getattr(self.cls, name, MISSING)
 
     def add_type_modules(self, *types_: typing.Type) -> None:
         for t in types_:
